@@ -63,11 +63,13 @@ int muggle_ts_memory_pool_init(muggle_ts_memory_pool_t *pool, muggle_sync_t capa
 		if (pool->data)
 		{
 			free(pool->data);
+			pool->data = NULL;
 		}
 
 		if (pool->ptrs)
 		{
 			free(pool->ptrs);
+			pool->ptrs = NULL;
 		}
 
 		return MUGGLE_ERR_MEM_ALLOC;
